@@ -21,8 +21,8 @@ def run(ctx):
     ctx.cov["exhaustive"] = True
     # one run exports every behaviour of the small instance (BEH) and the whole codec universe (UNI)
     behs, uni = export(ctx, "Beh_HLV.cfg" if quick else "Beh_HLV_thorough.cfg", None, None, ("BEH", "UNI"))
-    sim, = export(ctx, "Sim_HLV.cfg", 100 if quick else 1500, 14, ("BEH",))
-    cap = 400 if quick else 6000       # -simulate also prints the siblings of every final step: thin them out evenly
+    sim, = export(ctx, "Sim_HLV.cfg", 60 if quick else 500, 14, ("BEH",))
+    cap = 300 if quick else 4000       # -simulate also prints the siblings of every final step: thin them out evenly
     behs += sim[::max(1, len(sim) // cap)][:cap]
     if not uni:
         raise Inconclusive("codec universe not exported")
@@ -100,7 +100,8 @@ def replay_and_validate(ctx, behs, uni):
     ctx.cov["grammar_instances"] = nsyn
     open_acc = sorted({r["cls"] for r in rows if r["a"] == "Syn" and r["ok"] and r["cls"] not in ("valid",)})
     ctx.cov["open_grammar_classes_accepted"] = open_acc
-    pulls = [r for r in rows if r["a"] == "Pull" and r["cls"] == "Conflict"]
+    pulls = [r for r in rows if r["a"] == "Pull" and r["cls"] == "Conflict" and r["res"] == "Merge" and len(r["vvs"]) > 200] or \
+            [r for r in rows if r["a"] == "Pull" and r["cls"] == "Conflict"]
     if pulls:
         p = pulls[len(pulls) // 2]
         ctx.sample({"real_pull": {k: p[k] for k in ("r", "s", "cls", "res", "v", "h", "raw", "vvs", "ws")}})
@@ -128,9 +129,9 @@ def replay_and_validate(ctx, behs, uni):
             ident = {k: row.get(k) for k in ("a", "cls", "str", "h", "vv", "wire", "rt", "vvs", "ws")}
             key = "%s:%s" % (vp.inv, json.dumps({k: row.get(k) for k in ("a", "cls", "str", "h")}, sort_keys=True))
         else:
-            prefix = [strip(r) for r in cur_rows[lo + 1:line - 1]]
+            # the history up to and including the failing step, as the real code executed it
             ident = {"behaviour": behs[cur_rows[lo]["beh"]] if cur_rows[lo].get("a") == "Reset" else None, "real_steps": cur_rows[lo:line - 1]}
-            key = "%s:%s" % (vp.inv, json.dumps(prefix, sort_keys=True))
+            key = "%s:%s" % (vp.inv, ";".join(sig(r) for r in cur_rows[lo + 1:line - 1]))
         report_violation(ctx, key, "real HybridLogicalVector code breaks %s at trace line %s (%s)" % (vp.inv, line - 1, describe(row)),
                          dict(ident, invariant=vp.inv, state=(vp.state or {}).get("_txt")))
         if hard >= MAX_HARD:
@@ -153,21 +154,24 @@ def replay_and_validate(ctx, behs, uni):
 
 
 def report_devs(ctx, vp, rows, behs):
-    """named deviations printed by the DevReport predicate: <<"DEV", line, class>>"""
-    seen = ctx.cov.setdefault("named_deviations", {})
+    """named deviations printed by the DevReport predicate: <<"DEV", line, class>>; bookkeeping lines <<"INF", line, why>>"""
+    devs, info = {}, {}
     for t, txt in parse_printed(vp.out):
+        parts = [x.strip() for x in txt.split(",")]
+        if t == "INF":       # pulls whose classification clauses were not evaluated (D1 / after a reported drop)
+            c = json.loads(parts[1])
+            info[c] = info.get(c, 0) + 1
         if t != "DEV":
             continue
-        parts = [x.strip() for x in txt.split(",")]
         line, cls = int(parts[0]), json.loads(parts[1])
-        first = cls not in seen
-        seen[cls] = seen.get(cls, 0) + 1
-        if not first:
+        devs[cls] = devs.get(cls, 0) + 1
+        if devs[cls] > 1:
             continue
         lo, hi = segment(rows, line - 1)
         report_violation(ctx, "NothingLost@UpdateHistory:%s" % cls, DEV_WHAT.get(cls, cls),
                          {"behaviour": behs[rows[lo]["beh"]] if rows[lo].get("a") == "Reset" else None,
-                          "real_steps": rows[lo:line], "class": cls, "occurrences_this_run": "see evidence named_deviations"})
+                          "real_steps": rows[lo:line], "class": cls})
+    ctx.cov["named_deviations"], ctx.cov["info"] = devs, info
 
 
 def segment(rows, idx):
@@ -182,6 +186,12 @@ def segment(rows, idx):
     while hi < len(rows) and rows[hi]["a"] not in ("Reset", "Uni", "Syn"):
         hi += 1
     return lo, hi
+
+
+def sig(r):
+    if r["a"] == "Edit":
+        return "E.%s.%s%s" % (r["r"], r["v"], "" if r.get("ok", True) else "!")
+    return "P.%s<%s.%s.%s.%s" % (r["r"], r["s"], r["cls"], r["res"], r["v"])
 
 
 def strip(r):
